@@ -55,6 +55,10 @@ class Normalizer(ast.NodeTransformer):
             want, keys = kd(node.slice), [kd(k) for k in node.value.keys]
             if want is not None and all(k is not None for k in keys) and keys.count(want) == 1:
                 return node.value.values[keys.index(want)]
+            # {False: a, True: b}[bool(c)]  ->  b if c else a
+            sl = node.slice
+            if sorted(k for k in keys if k is not None) == ["False", "True"] and len(keys) == 2 and isinstance(sl, ast.Call) and isinstance(sl.func, ast.Name) and sl.func.id == "bool" and len(sl.args) == 1 and not sl.keywords:
+                return ast.copy_location(ast.IfExp(test=sl.args[0], body=node.value.values[keys.index("True")], orelse=node.value.values[keys.index("False")]), node)
         return node
 
     def visit_AugAssign(self, node):
@@ -237,6 +241,13 @@ class Normalizer(ast.NodeTransformer):
 
     def visit_Call(self, node):
         self.generic_visit(node)
+        # (f if c else g)(args) -> f(args) if c else g(args) ;  attrgetter("a")(x) -> x.a
+        if isinstance(node.func, ast.IfExp):
+            f = node.func
+            mk = lambda fn_: self.visit_Call(ast.copy_location(ast.Call(func=fn_, args=copy.deepcopy(node.args), keywords=copy.deepcopy(node.keywords)), node))
+            return ast.copy_location(ast.IfExp(test=f.test, body=mk(f.body), orelse=mk(f.orelse)), node)
+        if isinstance(node.func, ast.Call) and isinstance(node.func.func, ast.Name) and node.func.func.id == "attrgetter" and len(node.func.args) == 1 and isinstance(node.func.args[0], ast.Constant) and isinstance(node.func.args[0].value, str) and node.func.args[0].value.isidentifier() and len(node.args) == 1 and not node.keywords and not node.func.keywords:
+            return ast.copy_location(ast.Attribute(value=node.args[0], attr=node.func.args[0].value, ctx=ast.Load()), node)
         if any(isinstance(a, ast.Starred) and isinstance(a.value, (ast.Tuple, ast.List)) for a in node.args):
             args = []
             for a in node.args:
@@ -672,6 +683,152 @@ class _ConstFold(ast.NodeTransformer):
         return node
 
 
+# ---------------------------------------------------------------------------------------------------------------------------------
+# selector splitting
+
+
+def _enum_members(tree) -> dict:
+    """enum classes defined in this module whose members have pairwise distinct literal values (no aliases): name -> member names"""
+    out = {}
+    for node in tree.body:
+        if isinstance(node, ast.ClassDef) and any(ast.unparse(b).split(".")[-1] in ("Enum", "IntEnum", "StrEnum", "Flag") for b in node.bases):
+            vals, ok = {}, True
+            for st in node.body:
+                if isinstance(st, ast.Assign) and len(st.targets) == 1 and isinstance(st.targets[0], ast.Name):
+                    v = st.value
+                    if isinstance(v, ast.Constant):
+                        vals[st.targets[0].id] = repr(v.value)
+                    elif isinstance(v, ast.Call) and ast.unparse(v.func).split(".")[-1] == "auto" and not v.args:
+                        vals[st.targets[0].id] = f"auto#{len(vals)}"
+                    else:
+                        ok = False
+            if ok and vals and len(set(vals.values())) == len(vals):
+                out[node.name] = set(vals)
+    return out
+
+
+class _SelFold(_ConstFold):
+    """_ConstFold plus comparisons between selector constants (members of alias-free enums of this module, booleans)"""
+
+    def __init__(self, enums):
+        self.enums = enums
+
+    def _sel(self, e):
+        if isinstance(e, ast.Attribute) and isinstance(e.value, ast.Name) and e.value.id in self.enums and e.attr in self.enums[e.value.id]:
+            return ("enum", e.value.id, e.attr)
+        if isinstance(e, ast.Constant) and (isinstance(e.value, bool) or e.value is None):
+            return ("const", e.value)
+        return None
+
+    def visit_Compare(self, node):
+        self.generic_visit(node)
+        if len(node.ops) != 1:
+            return node
+        a, op, b = self._sel(node.left), node.ops[0], node.comparators[0]
+        if a is None or a[0] != "enum":
+            return node
+        if isinstance(op, (ast.Eq, ast.NotEq, ast.Is, ast.IsNot)):
+            sb = self._sel(b)
+            if sb is None:
+                return node
+            r = a == sb
+            return ast.copy_location(ast.Constant(value=r if isinstance(op, (ast.Eq, ast.Is)) else not r), node)
+        if isinstance(op, (ast.In, ast.NotIn)) and isinstance(b, (ast.Tuple, ast.List, ast.Set)):
+            sb = [self._sel(x) for x in b.elts]
+            if any(x is None for x in sb):
+                return node
+            r = a in sb
+            return ast.copy_location(ast.Constant(value=r if isinstance(op, ast.In) else not r), node)
+        return node
+
+
+def _tidy(stmts):
+    """drop `pass` next to other statements and everything after a statement that leaves the block"""
+    out = []
+    for st in stmts:
+        for f_ in ("body", "orelse", "finalbody"):
+            v = getattr(st, f_, None)
+            if isinstance(v, list) and v and isinstance(v[0], ast.stmt) and not isinstance(st, (ast.FunctionDef, ast.ClassDef)):
+                t = _tidy(v)
+                setattr(st, f_, t if (t or f_ != "body") else [ast.copy_location(ast.Pass(), st)])
+        if isinstance(st, ast.Pass):
+            continue
+        out.append(st)
+        if isinstance(st, (ast.Return, ast.Raise, ast.Continue, ast.Break)):
+            break
+    return out
+
+
+def _split_selectors(fn: ast.FunctionDef, enums: dict) -> bool:
+    """sel = K1 if c1 else K2 if c2 else K3 ; <rest of the block testing sel>      (K: members of an enum / booleans)
+    A classification into named cases followed by a dispatch on the case is the if/elif chain it abbreviates: the rest of the block
+    is specialised for every leaf of the classification (the tests on `sel` fold to constants) and hung under the classification's
+    own tests.  Done only when `sel` is bound once and read only in that rest."""
+    sf = _SelFold(enums)
+
+    def leaves(t):
+        if isinstance(t, ast.IfExp):
+            return leaves(t.body) + leaves(t.orelse)
+        return [t]
+
+    def is_leaf(e):
+        s_ = sf._sel(e)
+        return s_ is not None and (s_[0] == "enum" or isinstance(s_[1], bool))
+
+    stores, loads = {}, {}
+    for n in ast.walk(fn):
+        if isinstance(n, ast.Name):
+            d = stores if isinstance(n.ctx, (ast.Store, ast.Del)) else loads
+            d.setdefault(n.id, []).append(n)
+    params = {a.arg for a in fn.args.args + fn.args.kwonlyargs + fn.args.posonlyargs}
+
+    def try_block(lst):
+        for i, st in enumerate(lst):
+            if not (isinstance(st, ast.Assign) and len(st.targets) == 1 and isinstance(st.targets[0], ast.Name) and isinstance(st.value, ast.IfExp)):
+                continue
+            sel = st.targets[0].id
+            lv = leaves(st.value)
+            if sel in params or len(stores.get(sel, [])) != 1 or not (2 <= len(lv) <= 8) or not all(is_leaf(x) for x in lv):
+                continue
+            if all(isinstance(x, ast.Constant) for x in lv):
+                continue  # plain boolean expressions stay expressions
+            rest = lst[i + 1 :]
+            inside = {id(n) for r_ in rest for n in ast.walk(r_)}
+            if not rest or any(id(n) not in inside for n in loads.get(sel, [])) or sum(1 for r_ in rest for _ in ast.walk(r_)) > 600:
+                continue
+
+            def spec(leaf):
+                class _S(ast.NodeTransformer):
+                    def visit_Name(s_, n):
+                        return copy.deepcopy(leaf) if n.id == sel and isinstance(n.ctx, ast.Load) else n
+
+                body = [_S().visit(copy.deepcopy(r_)) for r_ in rest]
+                m = ast.Module(body=body, type_ignores=[])
+                m = _SelFold(enums).visit(m)
+                return _tidy(m.body) or [ast.copy_location(ast.Pass(), st)]
+
+            def build(t):
+                if isinstance(t, ast.IfExp):
+                    return [ast.copy_location(ast.If(test=t.test, body=build(t.body), orelse=build(t.orelse)), st)]
+                return spec(t)
+
+            lst[i:] = build(st.value)
+            return True
+        for st in lst:
+            if isinstance(st, (ast.FunctionDef, ast.ClassDef)):
+                continue
+            for f_ in ("body", "orelse", "finalbody"):
+                v = getattr(st, f_, None)
+                if isinstance(v, list) and v and isinstance(v[0], ast.stmt) and try_block(v):
+                    return True
+            for h in getattr(st, "handlers", []) or []:
+                if try_block(h.body):
+                    return True
+        return False
+
+    return try_block(fn.body)
+
+
 def _copy_propagate(fn: ast.FunctionDef) -> bool:
     """`a = b` between two local names that are each bound exactly once (b may be a parameter that is never re-bound): a is b
     wherever a is defined, so a is renamed to b and the copy disappears (inlining a value helper leaves such copies behind)"""
@@ -755,6 +912,20 @@ def normalize(tree: ast.AST) -> ast.AST:
         ast.fix_missing_locations(tree)
     tree = Normalizer().visit(tree)
     ast.fix_missing_locations(tree)
+    again = False
+    for fn_ in [n for n in ast.walk(tree) if isinstance(n, ast.FunctionDef)]:
+        again = _copy_propagate(fn_) or again
+    enums = _enum_members(tree)
+    if enums:
+        for fn_ in [n for n in ast.walk(tree) if isinstance(n, ast.FunctionDef)]:
+            for _ in range(3):
+                if not _split_selectors(fn_, enums):
+                    break
+                again = True
+    if again:
+        ast.fix_missing_locations(tree)
+        tree = Normalizer().visit(tree)
+        ast.fix_missing_locations(tree)
     return tree
 
 
